@@ -212,6 +212,9 @@ func rulesC13(p *Prog, r *Report) {
 						p4 = append(p4, fmt.Sprintf("%s: iteration over a map (order differs from call to call)", p.pos(in.Pos())))
 					}
 				case *ssa.Store:
+					if _, isG := in.Addr.(*ssa.Global); isG && inOnceClosure(f) {
+						break // single publication under sync.Once (readers are checked by P1)
+					}
 					if msg := storeTarget(p, in, taint); msg != "" {
 						p5 = append(p5, fmt.Sprintf("%s: %s", p.pos(in.Pos()), msg))
 					}
